@@ -19,12 +19,15 @@ ChainStep ==
     \/ /\ StrictOrder => ntfB = <<>>
        /\ \E t \in TxIds : Announce(t)
 
-CONSTANT Crashes   \* TRUE: Crash / Restart / RestartCrash enabled (C06)
+CONSTANT Crashes,  \* TRUE: Crash / Restart / RestartCrash enabled (C06)
+         Lifecycle \* TRUE: Import / Remove and the background worker enabled (C07, C08)
 
 Next ==
     \/ up /\ ChainStep /\ UNCHANGED followerVars      \* the node runs only while the process is up
     \/ HandleBlock
     \/ HandleTx
+    \/ Lifecycle /\ \E x \in Wallets : Import(x) \/ Remove(x)
+    \/ Lifecycle /\ (ImportStep \/ RemoveStep)
     \/ Crashes /\ Crash
     \/ Crashes /\ Restart
     \/ Crashes /\ \E k \in 1..MaxBlocks : RestartCrash(k)
@@ -34,5 +37,8 @@ Spec == Init /\ [][Next]_vars
 \* C01 (ledger part) is definitional at this level: the view of a ready wallet
 \* is View(wchain, pend, w); with SyncedWhenQuiet it is the oracle of best.
 LedgerWhenQuiet ==
-    Quiescent => \A w \in Wallets : View(CC(wchain), pend, w) = View(CC(best), pend, w)
+    Quiescent => \A w \in Ready : View(CC(wchain), pend, w) = View(CC(best), pend, w)
+
+\* C07: a wallet leaves "importing" only when the rescan has reached the wallet's tip
+ImportCovers == \A w \in Wallets : status[w] = "importing" => cursor[w] <= Len(wchain)
 =============================================================================
